@@ -169,9 +169,20 @@ impl Cache {
         }
     }
 
+    /// Returns a copy of the current per-shard load estimates.
+    #[cfg(kismet_verif)]
+    pub fn verif_load_estimates(&self) -> Vec<u8> {
+        self.load_estimates.iter().map(|x| x.load(Relaxed)).collect()
+    }
+
     /// Returns a random shard id.
     fn random_shard_id(&self) -> usize {
         use rand::Rng;
+
+        #[cfg(kismet_verif)]
+        if let Some(draw) = crate::verif_hooks::next_shard_draw() {
+            return (draw % self.num_shards as u64) as usize;
+        }
 
         rand::thread_rng().gen_range(0..self.num_shards)
     }
@@ -206,7 +217,11 @@ impl Cache {
 
     /// Reorders two shard ids to return the least loaded first.
     fn sort_by_load(&self, (h1, h2): (usize, usize)) -> (usize, usize) {
+        #[cfg(kismet_verif)]
+        crate::verif_hooks::yield_point();
         let load1 = self.load_estimates[h1].load(Relaxed) as usize;
+        #[cfg(kismet_verif)]
+        crate::verif_hooks::yield_point();
         let load2 = self.load_estimates[h2].load(Relaxed) as usize;
 
         // Clamp loads at the shard capacity: when both shards are
@@ -270,6 +285,8 @@ impl Cache {
     /// Updates the load estimate for `shard_id` with the value
     /// returned by `CacheDir::{set,put}`.
     fn update_estimate(&self, shard_id: usize, update: Option<u64>) {
+        #[cfg(kismet_verif)]
+        crate::verif_hooks::yield_point();
         let target = &self.load_estimates[shard_id];
         match update {
             // If we have an updated estimate, overwrite what we have,
@@ -294,6 +311,8 @@ impl Cache {
     /// Performs a second chance maintenance on `shard`.
     fn force_maintain_shard(&self, shard: Shard) -> Result<()> {
         let update = shard.maintain()?.clamp(0, u8::MAX as u64) as u8;
+        #[cfg(kismet_verif)]
+        crate::verif_hooks::yield_point();
         self.load_estimates[shard.id].store(update, Relaxed);
         Ok(())
     }
